@@ -13,6 +13,40 @@ fn dec(a: &[i128]) -> PutResult<u64, u64> {
     }
 }
 
+/// equality of results is equality of their payloads, whatever the payload type says about itself: a result
+/// holding a NaN is not equal to itself (also when compared through the same reference), one holding equal floats
+/// is; checked on the same shape as `a`, with an f64 value / an f64 key
+fn payload_equality_is_structural(a: &[i128]) -> bool {
+    let nan = f64::NAN;
+    let mk = |v: f64| -> PutResult<u64, f64> {
+        match a[0] {
+            0 => PutResult::Put,
+            1 => PutResult::Update(v),
+            2 => PutResult::Evicted { key: a[1] as u64, value: v },
+            _ => PutResult::EvictedAndUpdate { evicted: (a[1] as u64, v), update: 1.5 },
+        }
+    };
+    let x = mk(nan);
+    let y = mk(2.5);
+    let z = mk(2.5);
+    let xr = &x;
+    #[allow(clippy::eq_op)]
+    let nan_ok = if a[0] == 0 { xr == xr } else { !(xr == xr) && xr != xr && !(x == mk(nan)) };
+    let mkk = |k: f64| -> PutResult<f64, u64> {
+        match a[0] {
+            0 => PutResult::Put,
+            1 => PutResult::Update(7),
+            2 => PutResult::Evicted { key: k, value: 7 },
+            _ => PutResult::EvictedAndUpdate { evicted: (k, 7), update: 8 },
+        }
+    };
+    let kx = mkk(nan);
+    let kxr = &kx;
+    #[allow(clippy::eq_op)]
+    let knan_ok = if a[0] >= 2 { !(kxr == kxr) } else { kxr == kxr };
+    nan_ok && knan_ok && y == z && (&y) == (&y)
+}
+
 impl Subject for PutResSubj {
     fn apply(&mut self, op: &[i128]) -> Ints {
         // [130 ta xa ya za tb xb yb zb]
@@ -21,7 +55,7 @@ impl Subject for PutResSubj {
         let c = a.clone();
         let d = a; // Copy
         #[allow(clippy::eq_op)]
-        let refl = a == a;
+        let refl = (a == a) && payload_equality_is_structural(&op[1..5]);
         vec![(a == b) as i128, (b == a) as i128, (c == a) as i128, (d == a) as i128, refl as i128, (a != b) as i128]
     }
     fn snapshot(&self) -> Ints {
